@@ -184,6 +184,7 @@ def worker(ob):
             else:
                 case = ob["case"]
                 ys = [z3.Real(f"y{j}") for j in range(n + 1)]
+                info.update(ty="F64", ys=ys, errors=case)
                 cell = Cell(new_spline(m, S, "F64", k, t))
                 if case == "fewer sites":
                     r = csolve(m, S, "F64", cell, tau[:-1], [F(y) for y in ys[:n - 1]], ln, rn)
